@@ -742,11 +742,17 @@ func main() {
 	dir, outPath := "/repo", "/verif/lean/Jmes/Generated.lean"
 	args := os.Args[1:]
 	lexerFrom := ""
-	if len(args) >= 2 && args[0] == "-lexer-from" {
-		lexerFrom, args = args[1], args[2:]
+	functionsFrom := ""
+	for len(args) >= 2 && (args[0] == "-lexer-from" || args[0] == "-functions-from") {
+		if args[0] == "-lexer-from" {
+			lexerFrom = args[1]
+		} else {
+			functionsFrom = args[1]
+		}
+		args = args[2:]
 	}
 	if len(args) > 2 {
-		die("command line", "usage: extract [-lexer-from file] [repo-dir [output.lean]]")
+		die("command line", "usage: extract [-lexer-from file] [-functions-from file] [repo-dir [output.lean]]")
 	}
 	if len(args) > 0 {
 		dir = args[0]
@@ -755,7 +761,25 @@ func main() {
 		outPath = args[1]
 	}
 	parserF := parseFile(dir, "parser.go", "bindingPowers")
-	funcs := parseFile(dir, "functions.go")
+	// The function table: read from the source of newFunctionCaller, or (-functions-from) taken from the output
+	// of `harness fnprobe`, which reads the table of a fresh interpreter at run time (used by /verif/check when the
+	// source no longer builds the table in a shape the rules above cover).
+	var fnEntries []string
+	if functionsFrom != "" {
+		raw, err := ioutil.ReadFile(functionsFrom)
+		if err != nil {
+			die("-functions-from", "%v", err)
+		}
+		for _, l := range strings.Split(strings.TrimSpace(string(raw)), "\n") {
+			l = strings.TrimSpace(l)
+			if !strings.HasPrefix(l, "{ key := ") {
+				die("-functions-from", "unexpected line %q", l)
+			}
+			fnEntries = append(fnEntries, "  "+strings.TrimSuffix(l, ","))
+		}
+	} else {
+		fnEntries = extractFunctions(parseFile(dir, "functions.go"))
+	}
 
 	// The four lexer tables: read from the literals in lexer.go, or (-lexer-from) taken from the
 	// output of `harness lexprobe`, which derives them by exhaustive execution of the library.
@@ -789,7 +813,10 @@ func main() {
 	b.WriteString("import Jmes.Token\nnamespace Jmes.Generated\nopen Jmes TokType JpType Handler\n\n")
 	b.WriteString(lexerDefs)
 	fmt.Fprintf(&b, "def table : ParserTable := {\n  bp := [%s],\n  %s }\n\n", strings.Join(pt.bp, ", "), strings.Join(pt.fields, ",\n  "))
-	fmt.Fprintf(&b, "def functionTable : List FnEntry := [\n%s\n]\n\nend Jmes.Generated\n", strings.Join(extractFunctions(funcs), ",\n"))
+	if functionsFrom != "" {
+		b.WriteString("-- function table: read at run time from a fresh interpreter (harness fnprobe); functions.go no longer builds it in a shape the extractor reads\n")
+	}
+	fmt.Fprintf(&b, "def functionTable : List FnEntry := [\n%s\n]\n\nend Jmes.Generated\n", strings.Join(fnEntries, ",\n"))
 
 	if err := ioutil.WriteFile(outPath, []byte(b.String()), 0o644); err != nil {
 		fmt.Fprintf(os.Stderr, "extract: cannot write %s: %v\n", outPath, err)
